@@ -68,6 +68,12 @@ Definition error_status (e : errkind) : Z :=
   | ENetTimeout => 504 | ENetOther => 502 | EEOF => 502 | ECanceled => 499 | EOther => 500
   end.
 
+(* connecting to the upstream takes [connect] and the dialer gives up after [limit] (0 = never);
+   a dial timeout is a net.Error with Timeout() = true, so the client is answered 504.
+   The same dialer serves every transport NewTransport builds, with or without TLS settings. *)
+Definition dial (limit connect upstream_status : Z) : Z :=
+  if (0 <? limit) && (limit <=? connect) then error_status ENetTimeout else upstream_status.
+
 (* the upstream answers its header after [delay]; http.Transport gives up after
    [limit] (0 = never).  Result: (status, time at which the client is answered). *)
 Definition serve (limit delay upstream_status : Z) : Z * Z :=
